@@ -34,6 +34,8 @@
  'aforc': {'file': 'brush-core/src/interp.rs', 'start': r'^impl Execute for ast::ArithmeticForClauseCommand \{\s*async fn execute\(', 'mode': 'fn_body', 'self_to': 'this',
            'rewrites': [[r'([\w\.]+)\s*\.execute\(\s*shell,\s*([^)]*?)\)\s*\.await', r'__o.child(\1.vk_id(), shell, \2)', 1],
                         [r'(\w+)\.eval\(shell, params, true\)\s*\.await', r'__o.arith(\1.vk_id())', 3]]},
+ 'arithcmd': {'file': 'brush-core/src/interp.rs', 'start': r'^impl Execute for ast::ArithmeticCommand \{\s*async fn execute\(', 'mode': 'fn_body', 'self_to': 'this',
+           'rewrites': [[r'this\.expr\.eval\(shell, params, true\)\s*\.await', r'__o.arith(this.expr.vk_id())', 1]]},
  'casec': {'file': 'brush-core/src/interp.rs', 'start': r'^impl Execute for ast::CaseClauseCommand \{\s*async fn execute\(', 'mode': 'fn_body', 'self_to': 'this',
            'rewrites': [[r'([\w\.]+)\s*\.execute\(\s*shell,\s*([^)]*?)\)\s*\.await', r'__o.child(\1.vk_id(), shell, \2)', 1],
                         [r'shell\s*\.trace_command\((?:[^;]|\n)*?\)\s*\.await;', r'__o.trace();', 1],
@@ -165,6 +167,9 @@ fn t_for(this: &ast::ForClauseCommand, shell: &mut Sh, params: &ExecutionParamet
 }
 fn t_afor(this: &ast::ArithmeticForClauseCommand, shell: &mut Sh, params: &ExecutionParameters, __o: &mut Kids) -> Result<ExecutionResult, error::Error> {
 /*@LIFT aforc*/
+}
+fn t_arithcmd(this: &ast::ArithmeticCommand, shell: &mut Sh, params: &ExecutionParameters, __o: &mut Kids) -> Result<ExecutionResult, error::Error> {
+/*@LIFT arithcmd*/
 }
 fn t_case(this: &ast::CaseClauseCommand, shell: &mut Sh, params: &ExecutionParameters, __o: &mut Kids) -> Result<ExecutionResult, error::Error> {
 /*@LIFT casec*/
@@ -662,6 +667,27 @@ fn vk_c02_subshell() {
     else { assert!(st(&r) == o.codes[0], "C02.subshell.status_is_body_status"); }
     assert!(shell.last_exit_status() == 42, "C02.subshell.parent_dollar_question_untouched_by_clone");
     std::mem::forget(body); std::mem::forget(shell); std::mem::forget(params);
+}
+
+// ================================================================ (( expr ))
+//@proof {'props': ['C02', 'C07'], 'tier': 'quick', 'timeout': 900, 'bounds': 'value of the expression any i64', 'desc': '(( expr )): status 0 iff the value is non-zero, 1 otherwise; normal flow; $? agrees; the expression is evaluated exactly once', 'uses': ['arithcmd']}
+#[kani::proof]
+#[kani::unwind(4)]
+#[kani::stub(std::hash::RandomState::new, crate::vk_prelude::stub_random_state_new)]
+#[kani::stub(std::time::SystemTime::now, crate::vk_prelude::stub_now)]
+fn vk_c02_arithmetic_command_status() {
+    let (mut shell, params) = mk_shell(kani::any());
+    let cmd = ast::ArithmeticCommand { expr: ast::UnexpandedArithmeticExpr { value: String::new() }, loc: Default::default() };
+    let mut o = Kids::new([0, cmd.expr.vk_id(), 2, 3, 4]);
+    shell.set_last_exit_status(42);
+    let r = vk_ok(t_arithcmd(&cmd, &mut shell, &params, &mut o));
+    let v = o.arith[0];
+    kani::cover!(v == i64::MIN, "value_min");
+    kani::cover!(v == 0, "value_zero");
+    assert!(o.ariths == 1, "C07.arithcmd.evaluated_once");
+    assert!(st(&r) == if v != 0 { 0 } else { 1 } && r.is_normal_flow(), "C02.arithcmd.status_zero_iff_value_nonzero");
+    assert!(shell.last_exit_status() == st(&r), "C02.arithcmd.dollar_question");
+    std::mem::forget(cmd); std::mem::forget(shell); std::mem::forget(params);
 }
 
 // ================================================================ loop-level arithmetic
